@@ -22,6 +22,7 @@ RULE = (
     'objects of several callable kinds incl. falsy ones; a quarter of the parallel runs with statement-boundary delays; fresh interpret'
     'ers with the forkserver / spawn start method and a closure callback.'
     ' Round 8: long walks (depth 6-7, hundreds of tiles per worker); pyramid objects used at another depth before their depth attribute is set.'
+    ' Round 9: walks in which the operating system refuses the first / second / third worker fork (a reported refusal is accepted; a tile processed twice never is).'
 )
 ASSUMPTIONS = [
     "event-log file order respects happens-before (O_APPEND single-write records)",
